@@ -251,6 +251,9 @@ def gen_exhaustive(tier, seed):
 
 def suites(tier, seed):
     return [
+        Suite("timers-with-backlog", "machine", lambda: [__import__("hbgen").session(Rng(seed * 13 + i), "t%d" % i, h_choices=(400, 300), stall_bias=True, steps=(6, 10)) for i in range(12 if tier == "quick" else 120)] + __import__("hbgen").tx_with_data_queued_cases(Rng(seed + 3)),
+              monitor=monitor, nontrivial=lambda c, il: True, canon=__import__("hbgen").canon, shards=16, shrink=False, timeout=300,
+              rule="frames queued, the transport stalled at a frame boundary or after a few bytes of a frame, heartbeat timers firing meanwhile (real loop, real timers, case clock): nothing is ever inserted ahead of or into a frame in transit"),
         Suite("handles-submit-whole-frames", "api", lambda: [c for c in __import__("props.c02", fromlist=["x"]).sweep(tier, seed) if c.cid.startswith("s-max") or int(c.cid[1:]) % 3 == 0],
               monitor=__import__("props.c02", fromlist=["x"]).monitor, nontrivial=lambda c, il: True, canon=__import__("apigen").canon,
               rule="assumption A2 checked: whatever a channel handle puts into its queue towards the I/O thread is a whole frame (publishes with bodies of 0 ... 300 000 bytes at frame_max 4096 ... 2^32-1 through the public API; each queue entry decoded strictly) - frames of different channels can then interleave only at frame boundaries"),
